@@ -5,11 +5,12 @@ from .. import common as C
 from ..lbgen import enc
 
 ID = "C10"
-MODULES = ["Helios.Props.C10"]
+MODULES = ["Helios.Props.C10", "Helios.Props.Facts"]
 THEOREMS = ["Helios.Admin.bearer_exact", "Helios.Admin.auth_exact", "Helios.Admin.health_only_open",
             "Helios.Admin.no_token_no_401", "Helios.Admin.ip_policy", "Helios.Admin.deny_wins",
             "Helios.Admin.unparsable_refused", "Helios.Admin.malformed_list_fails_closed",
-            "Helios.Admin.header_independent", "Helios.Admin.unauth_no_effect"]
+            "Helios.Admin.header_independent", "Helios.Admin.unauth_no_effect",
+            "Helios.Facts.routes_eq", "Helios.Facts.ip_filter_closed", "Helios.Facts.extraction_clean"]
 
 PATHS = ["/v1/health", "/v1/metrics", "/v1/backends", "/v1/backends/add", "/v1/backends/remove", "/v1/strategy"]
 ODD_PATHS = ["/v1/unknown", "/v1/backends/", "/", "/v1/health/", "/v1", "/V1/backends", "/v1/backends/add/x"]
